@@ -221,7 +221,7 @@ pub fn run(ctx: &Ctx) -> (Acc, String, bool) {
         offsets.push(offsets.last().unwrap() + (g.len() * g.len()) as u64);
     }
     let exhaustive_total = *offsets.last().unwrap();
-    let random_total: u64 = ctx.pick(3_000, 200_000);
+    let random_total: u64 = ctx.pick(100_000, 20_000_000);
     let seed = ctx.seed;
     let acc = run_cases(ctx, exhaustive_total + random_total, |i, acc| {
         let (a, b) = if i < exhaustive_total {
